@@ -115,6 +115,14 @@ def structural_rename_uses_references(repo):
 
 
 STRUCTURAL = [structural_rename_uses_references]
+def _standin(repo, seed, tier):
+    from pyvc.standin import run_standin
+    return run_standin('C05', tier, seed, repo)
+
+
+_standin.tiers = ('quick', 'thorough')
+BOUNDED = [_standin]
+
 NOT_DECIDED = ['(b) closure/partition of get_references over an arbitrary _find_names (F7, open)',
                '(c) rename-back identity and (d) behaviour preservation (quantify over the inference engine on another program)',
                'whether _find_names itself is right']
